@@ -150,6 +150,25 @@ theorem C06_bye_ends_session (a : Acc) (c s : Nat) (hi : Inv a.h) (hcs : a.h.con
   refine (closeSession_sub _ s ?_).2
   exact processDisconnect_inv _ c hi
 
+/-- **A resumed session does not expire.** After a successful resume the session is no longer on the expiry
+list (whatever connection it had before — also on a take-over), so the housekeeping that closes the sessions
+on that list leaves it alone until its connection drops again. -/
+theorem C06_resume_off_expiry_list (a : Acc) (c s : Nat) (x : Sess)
+    (hopen : a.h.connOpen c = true) (hfree : a.h.connSess c = none)
+    (hx : a.h.sess s = some x) (hk : x.kind ≠ .virtual) :
+    s ∉ (processResume a c (some s)).h.expired := by
+  have hfh := flushPending_h s x.pending (resumeAcc a c s x)
+  have hexp : s ∉ (resumeAcc a c s x).h.expired := by
+    unfold resumeAcc resumeTables
+    simp only [removeL, List.mem_filter, ne_eq, decide_not, Bool.not_eq_eq_eq_not, Bool.not_true,
+      decide_eq_false_iff_not, not_true_eq_false, and_false, not_false_eq_true]
+  unfold processResume
+  simp only [hopen, hfree, Bool.not_true, Option.isSome_none, Bool.or_self, Bool.false_eq_true, if_false, hx, hk]
+  split
+  · have hc := (notifyResumed_core (flushPending (resumeAcc a c s x) s x.pending) s).expired
+    rw [hc, hfh]; exact hexp
+  · rw [hfh]; exact hexp
+
 /-- The model takes a resumed session off the expiry list whatever connection it had before
 (`resumeTables`); the source does so while the `delete(h.expiredSessions, …)` of the resume branch is not
 nested under a condition on the previous connection — regenerated on every run.  Without it a resumed
